@@ -6,7 +6,9 @@ package verifapi
 
 import (
 	"encoding/json"
+	"reflect"
 	"runtime"
+	"unsafe"
 	"fmt"
 	"os"
 )
@@ -137,4 +139,44 @@ func RunReplay(f func()) (violated bool, what string) {
 	}()
 	f()
 	return false, ""
+}
+
+// Havoc makes every integer/boolean cell reachable through ptr (struct fields, array elements,
+// elements of non-nil slices; unexported fields included) nondeterministic: the residue of ANY
+// earlier use of a pooled object. Natively the values come from the replay file (name "havoc").
+func Havoc(ptr interface{}) {
+	v := reflect.ValueOf(ptr)
+	if v.Kind() != reflect.Ptr || v.IsNil() {
+		panic("verifapi.Havoc needs a non-nil pointer")
+	}
+	havoc(v.Elem(), 0)
+}
+
+func havoc(v reflect.Value, depth int) {
+	if depth > 6 {
+		return
+	}
+	if !v.CanSet() && v.CanAddr() {
+		v = reflect.NewAt(v.Type(), unsafe.Pointer(v.UnsafeAddr())).Elem()
+	}
+	switch v.Kind() {
+	case reflect.Struct:
+		for i := 0; i < v.NumField(); i++ {
+			havoc(v.Field(i), depth+1)
+		}
+	case reflect.Array:
+		for i := 0; i < v.Len(); i++ {
+			havoc(v.Index(i), depth+1)
+		}
+	case reflect.Slice:
+		for i := 0; i < v.Len(); i++ {
+			havoc(v.Index(i), depth+1)
+		}
+	case reflect.Bool:
+		v.SetBool(next("havoc") != 0)
+	case reflect.Int, reflect.Int8, reflect.Int16, reflect.Int32, reflect.Int64:
+		v.SetInt(int64(next("havoc")))
+	case reflect.Uint, reflect.Uint8, reflect.Uint16, reflect.Uint32, reflect.Uint64, reflect.Uintptr:
+		v.SetUint(next("havoc"))
+	}
 }
